@@ -386,7 +386,7 @@ fn w_variants(ctx: &mut Ctx) {
                     // recorded finding "initial_point_blowup"; any other dissent keeps the plain signature
                     let majority = ['S', 'P', 'D'].into_iter().max_by_key(|c| classes.iter().filter(|x| *x == c).count()).unwrap();
                     let data_scale = base.q.iter().chain(&base.b).chain(&base.A.nzval).chain(&base.P.nzval).fold(1.0f64, |m, v| m.max(v.abs()));
-                    let all_blowup = runs.iter().filter(|(mp, _)| verdict_class(mp.status) != majority).all(|(mp, _)| mp.init_norm > 1e40 * data_scale);
+                    let all_blowup = runs.iter().filter(|(mp, _)| verdict_class(mp.status) != majority).all(|(mp, _)| mp.init_norm > 1e20 * data_scale);
                     // second recorded mechanism: objective scaled by >= 1e4 or <= 1e-4 while equilibration is OFF
                     let all_extreme = runs.iter().filter(|(mp, _)| verdict_class(mp.status) != majority).all(|(mp, _)| !mp.equilibrated && !(2e-4..=5e3).contains(&mp.cscale));
                     // third recorded mechanism: equilibration ON, but the objective scale lies beyond what its cost
